@@ -107,6 +107,7 @@ class _Module:
         self.public_classes: list[str] = []
         self.all_classes: list[str] = []
         self.functions: list[str] = []
+        self.tail: list[str] = []
 
     @property
     def qname(self) -> str:
@@ -124,6 +125,7 @@ class _Module:
         if self.imports:
             parts.append("\n".join(self.imports) + "\n")
         parts.extend(self.body)
+        parts.extend(self.tail)
         return "\n".join(parts).rstrip("\n") + "\n"
 
 
@@ -553,6 +555,10 @@ class PackageGenerator:
         parts = pkg_path.split(".")
         for i in range(1, len(parts)):
             self.inits.setdefault(".".join(parts[:i]), [])
+        if self.f("DOCS") and self.r.random() < 0.4:
+            # bare string literals that are NOT the module docstring (PEP-224 style attribute docstrings, disabled code)
+            tokn = self.tokens.new("N", m.qname, "not a docstring")
+            m.tail.append(f'LIMIT_{len(self.modules)} = 3\n"""Documents the constant, belongs to no element: {tokn}."""\n')
         if self.f("DOCS") and self.r.random() < 0.6:
             tok = self.tokens.new("M", m.qname)
             uni = " – ünïcödé ✓" if self.f("UNICODE_DOC") else ""
